@@ -35,8 +35,29 @@ func (w *World) c03Shapes(full bool) []c03Shape {
 			}
 		}
 	}
+	// two actions (instrumented stand with the harness' swap controller): a fault inside the FIRST action
+	// must not be forgotten because a later action succeeds
+	for _, f := range []Fwd{w.FwdInternal(w.Bob), w.FwdCCTP(0)} {
+		f1 := f
+		f1.SwapFirst = true
+		f1.Tag = "swap+" + f.String()
+		out = append(out, c03Shape{fmt.Sprintf("[SWAP,FEE]->%s/stray0", f), TransferSpec{"channel-0", denomOTH, "10000", orb, f1, []FeeSpec{{To: w.Fee1.String(), Bps: 100}}}, 0})
+	}
+	f2 := w.FwdInternal(w.Bob)
+	f2.Tag = "fee+swap+internal"
+	out = append(out, c03Shape{"[FEE,SWAP]->internal/stray0", TransferSpec{"channel-0", denomOTH, "10000", orb, f2, []FeeSpec{{To: w.Fee1.String(), Bps: 100}}}, 0})
 	return out
 }
+
+// c03Pkt: the packet of a shape ([FEE,SWAP] is the one list TransferSpec cannot express).
+func (sh c03Shape) pkt() Pkt {
+	if strings.HasPrefix(sh.Label, "[FEE,SWAP]") {
+		return NewPkt(sh.Spec.Chan, sh.Spec.Base, sh.Spec.Amount, sh.Spec.Receiver, MemoJSON(sh.Spec.Fwd, feeActionJSON(sh.Spec.Fees), swapActionJSON))
+	}
+	return sh.Spec.Pkt()
+}
+
+func (sh c03Shape) usesSwap() bool { return strings.Contains(sh.Label, "SWAP") }
 
 // toleratedSite: the only fault sites after which a SUCCESS acknowledgement is acceptable — the
 // statistics update (deliberately swallowed) and the params read (fails closed to limit 0).
@@ -62,7 +83,7 @@ func checkC03(tier string) *Report {
 	}
 	instrs := make([]*Instr, len(worlds))
 	for i, w := range worlds {
-		if instrs[i], err = NewInstr(w, false); err != nil {
+		if instrs[i], err = NewInstr(w, true); err != nil { // with the harness' swap controller: shapes with TWO actions
 			rep.HarnessError("instrumented stand: %v", err)
 			return rep
 		}
@@ -95,10 +116,15 @@ func checkC03(tier string) *Report {
 			keyBefore := w.StateKey(ctx)
 			// conformance of the replica: same packet on the app's own stack
 			full1 := Branch(ctx)
-			rFull := w.Recv(full1, sh.Spec.Pkt())
+			rFull := w.Recv(full1, sh.pkt())
 			ins1 := Branch(ctx)
-			rIns := in.Recv(ins1, sh.Spec.Pkt(), nil, "")
-			if string(rFull.Ack) != string(rIns.Ack) || w.StateKey(full1) != w.StateKey(ins1) || !rIns.Success {
+			rIns := in.Recv(ins1, sh.pkt(), nil, "")
+			if sh.usesSwap() {
+				if !rIns.Success {
+					rep.HarnessError("swap shape %s does not succeed fault-free: %s", sh.Label, rIns.Ack)
+					return rep
+				}
+			} else if string(rFull.Ack) != string(rIns.Ack) || w.StateKey(full1) != w.StateKey(ins1) || !rIns.Success {
 				rep.HarnessError("instrumented stand does not conform to the app's stack for %s: ack %s vs %s (success=%v)", sh.Label, rFull.Ack, rIns.Ack, rIns.Success)
 				return rep
 			}
@@ -110,6 +136,12 @@ func checkC03(tier string) *Report {
 				modes := []string{""}
 				if s == "inner.OnRecvPacket" {
 					modes = []string{"error-ack", "no-credit", "credit-less", "credit-more"}
+					if sh.usesSwap() {
+						// the balance precondition is on the DESTINATION denom; after a denomination change a
+						// surplus credit in the source denom is invisible to it by construction (and the
+						// surplus is a hypothetical of this fault model, not something ICS-20 does)
+						modes = []string{"error-ack", "no-credit", "credit-less"}
+					}
 				}
 				for _, m := range modes {
 					jobs = append(jobs, job{sh, []int{i}, m})
@@ -120,7 +152,7 @@ func checkC03(tier string) *Report {
 					modes := []string{""}
 					if sites[i] == "inner.OnRecvPacket" || sites[j] == "inner.OnRecvPacket" {
 						modes = []string{"error-ack", "credit-less"}
-						if full {
+						if full && !sh.usesSwap() {
 							modes = []string{"error-ack", "no-credit", "credit-less", "credit-more"}
 						}
 					}
@@ -155,7 +187,7 @@ func checkC03(tier string) *Report {
 		}
 		// fault-free post-state of the same shape on the same state (for the success clause)
 		ref := Branch(ctx)
-		in.Recv(ref, sh.Spec.Pkt(), nil, "")
+		in.Recv(ref, sh.pkt(), nil, "")
 		refLedger := w.Snapshot(ref)
 		pre := w.StateKey(ctx)
 		plan := map[int]bool{}
@@ -163,7 +195,7 @@ func checkC03(tier string) *Report {
 			plan[i] = true
 		}
 		b := Branch(ctx)
-		r := in.Recv(b, sh.Spec.Pkt(), plan, jb.mode)
+		r := in.Recv(b, sh.pkt(), plan, jb.mode)
 		rep.Count("evaluations", 1)
 		rep.Count("fault_plan_executions", 1)
 		var faultedSites []string
@@ -183,7 +215,7 @@ func checkC03(tier string) *Report {
 		}
 		sig := fmt.Sprintf("shape=%s plan=%v mode=%s", sh.Label, planSites, jb.mode)
 		group := firstFault
-		pkt := sh.Spec.Pkt()
+		pkt := sh.pkt()
 		replay := mustJSON(map[string]any{"ops": []Op{{Label: sh.Label, Pkt: &pkt}}, "fault_plan": planSites, "inner_mode": jb.mode, "stray": sh.Stray,
 			"note": "fault plans are replayed by re-running `bin/check C03 <tier>`; the op list alone is the fault-free run"})
 		if len(faultedSites) == 0 {
@@ -282,11 +314,37 @@ func c03Natural(rep *Report, worlds []*World, full bool) {
 			}
 		}
 	}
+	// an action that cannot execute (no controller under ACTION_SWAP on the deployed chain) FOLLOWED by a fee
+	// action that can: the failure of a step that is not the last one must still refuse the transfer
+	feeAttrs := func(to string) string {
+		return fmt.Sprintf(`{"@type":"%s","fees_info":[{"recipient":"%s","basis_points":{"value":100}}]}`, urlFee, to)
+	}
+	var mustRefuse []Pkt
+	for _, f := range []Fwd{w0.FwdInternal(w0.Bob), w0.FwdCCTP(0), w0.FwdHyp(1)} {
+		mustRefuse = append(mustRefuse, NewPkt("channel-0", denomUSDC, "10000", orb,
+			MemoJSON(f, `{"id":"ACTION_SWAP","attributes":`+feeAttrs(w0.Fee2.String())+`}`, feeActionJSON([]FeeSpec{{To: w0.Fee1.String(), Bps: 100}}))))
+	}
 	sub := NewReport(rep.Prop, rep.Tier, rep.Level)
 	x := &Explorer{Rep: sub, Prefix: alpha, Depth: depth}
 	x.OnState = func(wk *Worker, n Node, ctx sdk.Context, _ any) {
 		w := wk.W
 		before := w.Snapshot(ctx)
+		for i := range mustRefuse {
+			pkt := mustRefuse[i]
+			b := Branch(ctx)
+			r := w.Recv(b, pkt)
+			rep.Count("natural_executions", 1)
+			rep.Count("evaluations", 1)
+			sig := "natural: " + strings.Join(pathLabels(alpha, n.Path), " ; ") + fmt.Sprintf(" ; [SWAP(no controller),FEE] #%d", i)
+			if r.Success || r.Panic != "" {
+				rep.Violate(Violation{Kind: "success-ack-despite-failed-step", Group: "natural failing-first-action", Sig: sig,
+					Replay: mustJSON(map[string]any{"ops": append(n.Ops(alpha), Op{Label: "[SWAP,FEE]", Pkt: &pkt}), "expect": []replayExpect{{Kind: "last_success", Want: false}}}),
+					What:   fmt.Sprintf("payload whose first action cannot execute (no controller) followed by a fee action was not refused (success=%v panic=%q) [%s]", r.Success, r.Panic, sig)})
+			} else {
+				rep.Outcome("natural-error-ack")
+				rep.Count("refusal:failing-non-last-action", 1)
+			}
+		}
 		for i := range probes {
 			t := probes[i]
 			pkt := t.Pkt()
